@@ -456,12 +456,17 @@ func (w *world) opFunc(op Op, id int, res *opResult) func() {
 				return
 			}
 			res.addressed = w.groupsOfNode(pi.node) // Bind starts with SyncForNode, Rollback ends with it
+			// a terminally failed request (bindrequest_info.IsFailed) is the scheduler's to delete; the binder need not
+			// (and, once fixed, does not) try it again
+			br := w.getReq(pi)
+			terminalBefore := br != nil && br.Status.Phase == schedulingv1alpha2.BindRequestPhaseFailed &&
+				(br.Spec.BackoffLimit == nil || br.Status.FailedAttempts >= *br.Spec.BackoffLimit)
 			s.Begin(id, op.Faults)
 			_, _, pn := w.proc.Reconcile(pi.ns, pi.name)
 			if pn != "" {
 				panic("reconcile panicked: " + pn)
 			}
-			if id == 0 && len(op.Faults) == 0 {
+			if id == 0 && len(op.Faults) == 0 && !terminalBefore {
 				if p := w.getPod(pi); p != nil && p.Spec.NodeName == "" {
 					res.unboundAfterCleanBind = fmt.Sprintf("a fault-free, non-concurrent reconcile of the request of pod %s (groups %v) leaves the pod unbound", pi.name, pi.groups)
 				}
